@@ -153,6 +153,19 @@ func overlayGen(r *rand.Rand, n int, tier string, emit func(Case)) {
 		}
 		emit(c)
 	}
+	for i := 0; i < bigExtra(n); i++ { // large sizes
+		if i%2 == 0 { // the Boolean-algebra laws on a wide lattice
+			l := bigLattice(r)
+			a, b := l.bigPair()
+			emit(Case{"op": "laws", "wa": a.AsText(), "wb": b.AsText(), "N": l.N})
+			continue
+		}
+		l := bigLatticeTo(r, 8, 9) // against the exact arrangement, whose arithmetic allows no more
+		a, b := l.bigPair()
+		c := pairCase(l, a, b, []int{0, 0, 0, 1, 2, 3}[r.Intn(6)])
+		c["op"] = overlayOps[r.Intn(4)]
+		emit(c)
+	}
 }
 
 func overlayOnPanic(c Case) Event {
@@ -168,7 +181,9 @@ func bools(b [2]bool) []bool { return []bool{b[0], b[1]} }
 // (lattice) where they are; other points are logged rounded and the edge is marked as not being on the lattice.
 func dcelEvent(a, b geom.Geometry) Event {
 	d := geom.VerifOverlayDump(a, b)
-	isInt := func(p geom.XY) bool { return p.X == math.Trunc(p.X) && p.Y == math.Trunc(p.Y) && math.Abs(p.X) < 1e6 && math.Abs(p.Y) < 1e6 }
+	isInt := func(p geom.XY) bool {
+		return p.X == math.Trunc(p.X) && p.Y == math.Trunc(p.Y) && math.Abs(p.X) < 1e6 && math.Abs(p.Y) < 1e6
+	}
 	pt := func(p geom.XY) []int { return []int{int(math.Round(p.X * 1024)), int(math.Round(p.Y * 1024))} }
 	ipt := func(p geom.XY) []int { return []int{int(p.X), int(p.Y)} }
 	verts, edges, faces := []Event{}, []Event{}, []Event{}
